@@ -915,11 +915,13 @@ class UnicodeData(BaseDictObject):
             glyphNames = glyphNames[1:]
             # get the close relative
             closeRelative = self.closeRelativeForGlyphName(glyphName, allowPseudoUnicode=allowPseudoUnicode)
+            # move the close relative behind its partner only when it is still
+            # waiting in the list: never add a name that was not given and never
+            # drop a repeated one.
             if closeRelative is not None:
-                if closeRelative not in glyphOrder:
-                    glyphOrder.append(closeRelative)
                 if closeRelative in glyphNames:
                     glyphNames.remove(closeRelative)
+                    glyphOrder.append(closeRelative)
         if not ascending:
             glyphOrder.reverse()
         return glyphOrder
